@@ -983,7 +983,7 @@ def product_distribution(dist, rvs=None, rv_mode=None, base=None):
         outcomes.append(ctor(outcome))
         pmf.append(ops.mult_reduce(np.asarray(prob)))
 
-    d = Distribution(outcomes, pmf, validate=False)
+    d = Distribution(outcomes, pmf, base=dist.get_base(), validate=False)
 
     # Maybe we should use ditParams['base'] when base is None?
     if base is not None:
